@@ -1,9 +1,255 @@
-//! C19 sessions (seeded driver). Fill in.
+//! C19 sessions (seeded driver): random receivers and arguments over the full-size domains, one pairwise
+//! wrapper-vs-core event per call: `{op: "Wrap.<row>", args: {twin, recv?, ...}, out: {wrapper: outcome, core: outcome}}`.
+//! The pairing (row -> twin) and the argument shape come from the table below, a copy of the method table of
+//! spec/Wrappers.tla that the trace spec re-checks on every event.
 use super::Tracer;
 use crate::gen::*;
+use crate::js::big;
 use crate::rng::Rng;
-use serde_json::json;
+use serde_json::{json, Map, Value};
+
+const TABLE: &[(&str, &str, &str, &str)] = &include!("c19_table.in");
+
+const UNITS: [&str; 11] = ["auto", "nanosecond", "microsecond", "millisecond", "second", "minute", "hour", "day", "week", "month", "year"];
+const MODES: [&str; 9] = ["ceil", "floor", "expand", "trunc", "halfCeil", "halfFloor", "halfExpand", "halfTrunc", "halfEven"];
+const CALS: [&str; 6] = ["hebrew", "japanese", "gregory", "buddhist", "roc", "coptic"];
+// named zones are sampled between 1900 and 2035 only: later instants hit the provider's known post-2037 failure,
+// which panics while the process-wide provider lock is held (C15/C03/C20 subjects, not C19's)
+const ZONES: [&str; 10] = ["America/New_York", "Europe/London", "Asia/Kolkata", "Australia/Lord_Howe", "Asia/Tokyo", "America/Sao_Paulo",
+    "Africa/Cairo", "Pacific/Apia", "Europe/Amsterdam", "America/St_Johns"];
+
+fn off_str(off: i64) -> String { format!("{}{:02}:{:02}", if off < 0 { "-" } else { "+" }, off.abs() / 3600, off.abs() % 3600 / 60) }
+fn subns(r: &mut Rng) -> i64 { match r.range(0, 4) { 0 => 0, 1 => 999_999_999, 2 => r.range(0, 999) * 1_000_000 + r.range(0, 999) * 1000 + r.range(0, 999), _ => r.range(0, 999_999_999) } }
+fn maybe_cal(r: &mut Rng, v: &mut Value, den: u64) { if r.chance(1, den) { v["cal"] = json!(*r.pick(&CALS)); } }
+
+fn g_zdt(r: &mut Rng) -> Value {
+    let mut v = if r.chance(2, 3) {
+        let off = r.range(-1439, 1439) * 60;
+        let day = any_day(r).clamp(-100_000_000, 99_999_999);
+        json!({"day": day, "sec": r.range(0, 86_399), "ns": subns(r), "tz": off_str(off), "off": off})
+    } else if r.chance(1, 6) {
+        json!({"day": r.range(-25_000, 24_000), "sec": r.range(0, 86_399), "ns": subns(r), "tz": "UTC", "off": 0})
+    } else {
+        json!({"day": r.range(-25_000, 24_000), "sec": r.range(0, 86_399), "ns": subns(r), "tz": *r.pick(&ZONES)})
+    };
+    maybe_cal(r, &mut v, 12);
+    v
+}
+fn g_date(r: &mut Rng) -> Value {
+    if r.chance(1, 8) { return json!({"y": r.range(1900, 2100), "m": r.range(1, 12), "d": r.range(1, 28), "cal": *r.pick(&CALS)}); }
+    date_json(any_day(r))
+}
+fn g_time(r: &mut Rng) -> Value { json!({"h": r.range(0, 23), "mi": r.range(0, 59), "s": r.range(0, 59), "ms": r.range(0, 999), "us": r.range(0, 999), "ns": r.range(0, 999)}) }
+fn merge(a: &Value, b: &Value) -> Value { let mut m: Map<String, Value> = a.as_object().unwrap().clone(); for (k, v) in b.as_object().unwrap() { m.insert(k.clone(), v.clone()); } Value::Object(m) }
+fn g_dt(r: &mut Rng) -> Value { let d = g_date(r); merge(&d, &g_time(r)) }
+fn g_dur(r: &mut Rng, date_units: bool, time_units: bool) -> Value {
+    let sg: i128 = if r.chance(1, 2) { 1 } else { -1 };
+    let mut f = |on: bool, small: i64, big_: i64| -> i128 { if !on { return 0; } sg * (match r.range(0, 5) { 0 | 1 => 0, 2 | 3 => r.range(0, small), _ => r.range(0, big_) }) as i128 };
+    let (y, mo, w, d) = (f(date_units, 5, 3000), f(date_units, 30, 40_000), f(date_units, 10, 100_000), f(date_units, 60, 1_000_000));
+    let (h, mi, s, ms, us, ns) = (f(time_units, 50, 1_000_000), f(time_units, 200, 10_000_000), f(time_units, 5000, 1_000_000_000), f(time_units, 5000, 2_000_000_000), f(time_units, 5000, 2_000_000_000), f(time_units, 5000, 2_000_000_000));
+    dur10(y, mo, w, d, h, mi, s, ms, us, ns)
+}
+fn g_inst(r: &mut Rng) -> Value {
+    match r.range(0, 7) {
+        0 => json!({"day": 100_000_000, "sec": 0, "ns": 0}),
+        1 => json!({"day": -100_000_000, "sec": 0, "ns": 0}),
+        2 => json!({"day": r.range(-213_510, -1), "sec": r.range(0, 86_399), "ns": subns(r)}),      // around and above -2^64 ns
+        3 => json!({"day": r.range(-3, 3), "sec": r.range(0, 86_399), "ns": subns(r)}),
+        _ => json!({"day": any_day(r).clamp(-100_000_000, 99_999_999), "sec": r.range(0, 86_399), "ns": subns(r)}),
+    }
+}
+fn g_ym(r: &mut Rng) -> Value { let mut v = json!({"y": match r.range(0, 3) { 0 => r.range(-271_000, 275_000), _ => r.range(-50, 3000) }, "m": r.range(1, 12)}); if r.chance(1, 8) { v = json!({"y": r.range(1900, 2100), "m": r.range(1, 12), "cal": *r.pick(&CALS)}); } v }
+fn g_md(r: &mut Rng) -> Value { let mut v = json!({"m": r.range(1, 12), "d": r.range(1, 28)}); if r.chance(1, 3) { v["y"] = json!(r.range(1900, 2100)); } maybe_cal(r, &mut v, 8); v }
+fn g_cal(r: &mut Rng) -> Value { if r.chance(1, 2) { json!("iso8601") } else { json!(*r.pick(&CALS)) } }
+fn g_seq(r: &mut Rng, n: usize) -> Value {
+    let sg: i64 = match r.range(0, 5) { 0 => 0, 1 | 2 => -1, _ => 1 };
+    let mixed = r.chance(1, 8);
+    Value::Array((0..n).map(|_| { let s = if mixed && r.chance(1, 2) { -sg } else { sg }; json!(s * match r.range(0, 3) { 0 => 0, 1 => r.range(0, 60), _ => r.range(0, 2_000_000) }) }).collect())
+}
+fn g_recv(r: &mut Rng, ty: &str) -> Value {
+    match ty { "zdt" => g_zdt(r), "date" => g_date(r), "dt" => g_dt(r), "time" => g_time(r), "dur" => g_dur(r, true, true), "inst" => g_inst(r), "ym" => g_ym(r), "md" => g_md(r),
+        "cal" => g_cal(r), "tdur" => g_seq(r, 6), "ddur" => g_seq(r, 4), _ => panic!("receiver type {}", ty) }
+}
+fn g_other(r: &mut Rng, ty: &str, recv: &Value) -> Value {
+    let mut o = g_recv(r, ty);
+    // mostly the same calendar / zone as the receiver (otherwise the difference is refused early)
+    if let Some(c) = recv.get("cal") { if r.chance(5, 6) { if ty == "date" || ty == "dt" || ty == "ym" { o = g_recv_cal(r, ty, c.as_str().unwrap()); } else { o["cal"] = c.clone(); } } } else if o.get("cal").is_some() && r.chance(5, 6) { o.as_object_mut().unwrap().remove("cal"); if ty != "zdt" { o = loop { let c = g_recv(r, ty); if c.get("cal").is_none() { break c; } }; } }
+    if ty == "zdt" && r.chance(1, 2) { o["tz"] = recv["tz"].clone(); match recv.get("off") { Some(x) => { o["off"] = x.clone(); } None => { o.as_object_mut().unwrap().remove("off"); o["day"] = json!(r.range(-25_000, 24_000)); } } }
+    o
+}
+fn g_recv_cal(r: &mut Rng, ty: &str, cal: &str) -> Value {
+    let mut v = match ty { "ym" => json!({"y": r.range(1900, 2100), "m": r.range(1, 12)}), _ => json!({"y": r.range(1900, 2100), "m": r.range(1, 12), "d": r.range(1, 28)}) };
+    if ty == "dt" { v = merge(&v, &g_time(r)); }
+    v["cal"] = json!(cal);
+    v
+}
+fn g_st(r: &mut Rng) -> Value {
+    let mut st = json!({});
+    if r.chance(2, 3) { st["largest"] = json!(*r.pick(&UNITS)); }
+    if r.chance(1, 2) { st["smallest"] = json!(*r.pick(&UNITS)); }
+    if r.chance(1, 3) { st["inc"] = json!(*r.pick(&[0i64, 1, 2, 5, 15, 30, 100, 1000, 1_000_000_001])); }
+    if r.chance(1, 2) || st.as_object().unwrap().is_empty() { st["mode"] = json!(*r.pick(&MODES)); }
+    st
+}
+fn g_tsro(r: &mut Rng) -> Value {
+    let mut o = match r.range(0, 3) { 0 => json!({"precision": "auto"}), 1 => json!({"precision": "minute"}), _ => json!({"precision": r.range(0, 9)}) };
+    if r.chance(1, 3) { o["smallest"] = json!(*r.pick(&["minute", "second", "millisecond", "microsecond", "nanosecond", "hour"])); }
+    if r.chance(1, 3) { o["mode"] = json!(*r.pick(&MODES)); }
+    o
+}
+fn g_pdate(r: &mut Rng) -> Value {
+    let mut p = json!({});
+    if r.chance(2, 3) { p["year"] = json!(r.range(-3000, 3000)); }
+    match r.range(0, 5) { 0 => {} 1 => { p["month_code"] = json!(if r.chance(1, 8) { (*r.pick(&["M1", "X05", "M5L", "m03", "M123", "M0AL", "13"])).to_string() } else { format!("M{:02}{}", r.range(1, 13), if r.chance(1, 10) { "L" } else { "" }) }); } 2 => { let m = r.range(1, 12); p["month"] = json!(m); p["month_code"] = json!(format!("M{:02}", if r.chance(3, 4) { m } else { r.range(1, 12) })); } _ => { p["month"] = json!(r.range(0, 14)); } }
+    if r.chance(2, 3) { p["day"] = json!(r.range(0, 33)); }
+    if r.chance(1, 12) { p["era"] = json!(*r.pick(&["ce", "bce", "heisei", "xx"])); p["era_year"] = json!(r.range(1, 2100)); p["cal"] = json!(*r.pick(&["gregory", "japanese"])); }
+    if p.as_object().unwrap().is_empty() || r.chance(1, 10) { if p.get("cal").is_none() { p["cal"] = json!("iso8601"); } }
+    p
+}
+fn g_ptime(r: &mut Rng) -> Value {
+    let mut p = json!({});
+    for (k, hi) in [("hour", 25), ("minute", 61), ("second", 61), ("millisecond", 1001), ("microsecond", 1001), ("nanosecond", 1001)] { if r.chance(1, 2) { p[k] = json!(if r.chance(1, 12) { hi } else { r.range(0, hi - 2) }); } }
+    if p.as_object().unwrap().is_empty() { p["empty"] = json!(true); }
+    p
+}
+fn g_pdur(r: &mut Rng, finite: bool) -> Value {
+    let mut p = json!({});
+    let sg: i64 = if r.chance(1, 2) { 1 } else { -1 };
+    for k in ["years", "months", "weeks", "days", "hours", "minutes", "seconds", "milliseconds", "microseconds", "nanoseconds"] { if r.chance(1, 3) { p[k] = json!(if r.chance(1, 15) { -sg } else { sg } * r.range(0, 5000)); } }
+    if p.as_object().unwrap().is_empty() { p["empty"] = json!(true); }
+    else if !finite && r.chance(1, 10) { let k = *r.pick(&["years", "hours", "nanoseconds"]); p[k] = json!(0); p["special"] = json!({"key": k, "val": *r.pick(&["NaN", "inf", "-inf"])}); }
+    p
+}
+fn g_ovf_opt(r: &mut Rng, a: &mut Value) { match r.range(0, 2) { 0 => {} 1 => { a["ovf"] = json!("constrain"); } _ => { a["ovf"] = json!("reject"); } } }
+fn g_ovf(r: &mut Rng, a: &mut Value) { a["ovf"] = json!(if r.chance(1, 2) { "constrain" } else { "reject" }); }
+fn g_rel(r: &mut Rng, a: &mut Value) { match r.range(0, 3) { 0 => {} 1 => { a["rel"] = json!({"date": date_json(r.range(-40_000, 40_000))}); } _ => { a["rel"] = json!({"zdt": g_zdt(r)}); } } }
+fn g_fdate(r: &mut Rng) -> Value {
+    let mut v = match r.range(0, 4) { 0 => json!({"y": r.range(-271_821, 275_760), "m": r.range(0, 14), "d": r.range(0, 33)}), 1 => json!({"y": *r.pick(&[-271_821i64, 275_760]), "m": r.range(3, 10), "d": r.range(10, 22)}), _ => date_json(any_day(r)) };
+    maybe_cal(r, &mut v, 10);
+    v
+}
+fn g_ftime(r: &mut Rng) -> Value { if r.chance(3, 4) { g_time(r) } else { json!({"h": r.range(0, 25), "mi": r.range(0, 61), "s": r.range(0, 61), "ms": r.range(0, 1001), "us": r.range(0, 1001), "ns": r.range(0, 1001)}) } }
+fn ems(i: &Value) -> i128 { (i["day"].as_i64().unwrap() as i128 * 86_400 + i["sec"].as_i64().unwrap() as i128) * 1000 + (i["ns"].as_i64().unwrap() / 1_000_000) as i128 }
+fn tz_any(r: &mut Rng) -> String { if r.chance(1, 2) { off_str(r.range(-1439, 1439) * 60) } else if r.chance(1, 6) { "UTC".into() } else { (*r.pick(&ZONES)).to_string() } }
+fn special_at(r: &mut Rng, a: &mut Value, n: i64) { if r.chance(1, 10) { a["special"] = json!({"at": r.range(1, n), "val": *r.pick(&["NaN", "inf", "-inf"])}); } }
+
+const ENUMS: &[(&str, &[&str])] = &[
+    ("Unit", &["Auto", "Nanosecond", "Microsecond", "Millisecond", "Second", "Minute", "Hour", "Day", "Week", "Month", "Year"]),
+    ("RoundingMode", &["Ceil", "Floor", "Expand", "Trunc", "HalfCeil", "HalfFloor", "HalfExpand", "HalfTrunc", "HalfEven"]),
+    ("UnsignedRoundingMode", &["Infinity", "Zero", "HalfInfinity", "HalfZero", "HalfEven"]),
+    ("ArithmeticOverflow", &["Constrain", "Reject"]), ("DurationOverflow", &["Constrain", "Balance"]),
+    ("Disambiguation", &["Compatible", "Earlier", "Later", "Reject"]), ("OffsetDisambiguation", &["Use", "Prefer", "Ignore", "Reject"]),
+    ("DisplayCalendar", &["Auto", "Always", "Never", "Critical"]), ("DisplayOffset", &["Auto", "Never"]), ("DisplayTimeZone", &["Auto", "Never", "Critical"]),
+    ("Sign", &["Positive", "Zero", "Negative"]), ("ErrorKind", &["Generic", "Type", "Range", "Syntax", "Assert"]),
+    ("AnyCalendarKind", &["Buddhist", "Chinese", "Coptic", "Dangi", "Ethiopian", "EthiopianAmeteAlem", "Gregorian", "Hebrew", "Indian", "IslamicCivil", "IslamicObservational",
+        "IslamicTabular", "IslamicUmmAlQura", "Iso", "Japanese", "JapaneseExtended", "Persian", "Roc"]),
+];
+
+// local date-times inside (or next to) DST gaps and overlaps of named zones, where the disambiguation option decides
+const EDGES: [(&str, i64, i64, i64, i64, i64); 12] = [
+    ("America/New_York", 2021, 3, 14, 2, 30), ("America/New_York", 2021, 11, 7, 1, 30), ("Europe/London", 2021, 3, 28, 1, 30), ("Europe/London", 2021, 10, 31, 1, 30),
+    ("Australia/Lord_Howe", 2021, 10, 3, 2, 15), ("Australia/Lord_Howe", 2021, 4, 4, 1, 45), ("America/Sao_Paulo", 2018, 11, 4, 0, 30), ("America/Sao_Paulo", 2018, 2, 17, 23, 30),
+    ("America/St_Johns", 2021, 3, 14, 2, 30), ("America/St_Johns", 2021, 11, 7, 1, 30), ("Africa/Cairo", 2023, 4, 28, 0, 30), ("Africa/Cairo", 2023, 10, 26, 23, 30),
+];
+
+fn zsrc(r: &mut Rng) -> String {
+    if r.chance(1, 4) {
+        let e = r.pick(&EDGES);
+        let off = match r.range(0, 3) { 0 => String::new(), 1 => off_str(r.range(-5, 3) * 3600), 2 => off_str(r.range(-4, 2) * 3600 - 1800), _ => "Z".into() };
+        return format!("{:04}-{:02}-{:02}T{:02}:{:02}:{:02}{}[{}]", e.1, e.2, e.3, e.4, e.5, r.range(0, 59), off, e.0);
+    }
+    if r.chance(1, 10) { return (*r.pick(&["garbage", "2021-03-09T13:14:15", "2021-03-09T13:14:15+01:00", ""])).to_string(); }
+    let n = r.range(-25_000, 24_000);
+    let (y, m, d) = civil(n);
+    let (h, mi, s) = (r.range(0, 23), r.range(0, 59), r.range(0, 59));
+    let frac = if r.chance(1, 2) { format!(".{:09}", r.range(0, 999_999_999)) } else { String::new() };
+    let tz = tz_any(r);
+    let off = match r.range(0, 3) { 0 => String::new(), 1 => "Z".into(), 2 => off_str(r.range(-12, 14) * 3600), _ => if tz.starts_with('+') || tz.starts_with('-') { tz.clone() } else { off_str(r.range(-5, 5) * 3600) } };
+    let cal = if r.chance(1, 8) { format!("[u-ca={}]", *r.pick(&["hebrew", "iso8601", "gregory", "nope"])) } else { String::new() };
+    format!("{:04}-{:02}-{:02}T{:02}:{:02}:{:02}{}{}[{}]{}", y, m, d, h, mi, s, frac, off, tz, cal)
+}
+
+fn args_for(r: &mut Rng, ty: &str, sig: &str) -> Value {
+    let mut a = json!({});
+    if ty != "none" { a["recv"] = g_recv(r, ty); }
+    let recv = a.get("recv").cloned().unwrap_or(Value::Null);
+    match sig {
+        "recv" => {}
+        // transitions of named zones are "Not yet implemented" in the bundled provider (out of scope): offset zones only
+        "recv+dir" => { while a["recv"].get("off").is_none() || a["recv"]["tz"] == "UTC" { a["recv"] = g_zdt(r); } a["dir"] = json!(if r.chance(1, 2) { "next" } else { "previous" }); }
+        "recv+time" => { a["time"] = g_time(r); }
+        "recv+time?" => { if r.chance(2, 3) { a["time"] = g_time(r); } }
+        "recv+dur+ovf?" => { a["dur"] = if ty == "zdt" && r.chance(1, 2) { g_dur(r, false, true) } else { { let tu = r.chance(1, 2); g_dur(r, true, tu) } }; g_ovf_opt(r, &mut a); }
+        "recv+dur+ovf" => { let tu = r.chance(1, 4); a["dur"] = g_dur(r, true, tu); g_ovf(r, &mut a); }
+        "recv+dur" => { let du = r.chance(1, 6); a["dur"] = g_dur(r, du, true); }
+        "recv+tdur" => { a["tdur"] = g_seq(r, 6); }
+        "recv+other+st" => { a["other"] = g_other(r, ty, &recv); a["st"] = g_st(r); }
+        "recv+zdisplay" => { a["doff"] = json!(*r.pick(&["auto", "never"])); a["dtz"] = json!(*r.pick(&["auto", "never", "critical"])); a["dcal"] = json!(*r.pick(&["auto", "always", "never", "critical"])); a["opts"] = g_tsro(r); }
+        "zsrc" => { a["src"] = json!(zsrc(r)); a["dis"] = json!(*r.pick(&["compatible", "earlier", "later", "reject"])); a["offopt"] = json!(*r.pick(&["use", "prefer", "ignore", "reject"])); }
+        "recv+ropts+rel" => { a["opts"] = g_st(r); g_rel(r, &mut a); }
+        "recv+otherdur+rel" => { a["other"] = g_dur(r, true, true); g_rel(r, &mut a); }
+        "recv+otherdur" => { let du = r.chance(1, 2); a["other"] = g_dur(r, du, true); }
+        "recv+unit+rel" => { a["unit"] = json!(*r.pick(&UNITS[1..])); g_rel(r, &mut a); }
+        "recv+tz?+tsro" => { if r.chance(3, 4) { let named_ok = recv["day"].as_i64().unwrap() < 24_000 && recv["day"].as_i64().unwrap() > -25_000; a["tz"] = json!(if named_ok { tz_any(r) } else { off_str(r.range(-1439, 1439) * 60) }); } a["opts"] = g_tsro(r); }
+        "recv+tz+dis" if r.chance(1, 3) => { let e = *r.pick(&EDGES); a["recv"] = merge(&json!({"y": e.1, "m": e.2, "d": e.3}), &g_time(r)); a["recv"]["h"] = json!(e.4); a["recv"]["mi"] = json!(e.5);
+            a["tz"] = json!(e.0); a["dis"] = json!(*r.pick(&["compatible", "earlier", "later", "reject"])); }
+        "recv+tz+dis" => { let n = days_from_civil(recv["y"].as_i64().unwrap(), recv["m"].as_i64().unwrap().clamp(1, 12), recv["d"].as_i64().unwrap().clamp(1, 28)); let named_ok = recv.get("cal").is_some() || (n < 24_000 && n > -25_000);
+            a["tz"] = json!(if named_ok && recv.get("cal").is_none() { tz_any(r) } else { off_str(r.range(-1439, 1439) * 60) }); a["dis"] = json!(*r.pick(&["compatible", "earlier", "later", "reject"])); }
+        "relsrc" => { a["src"] = json!(if r.chance(1, 3) { let (y, m, d) = civil(r.range(-25_000, 24_000)); format!("{:04}-{:02}-{:02}", y, m, d) } else { zsrc(r) }); }
+        "fdate" => { a["f"] = g_fdate(r); }
+        "fdate+ovf" => { a["f"] = g_fdate(r); g_ovf(r, &mut a); }
+        "pdate+ovf?" => { a["partial"] = g_pdate(r); g_ovf_opt(r, &mut a); }
+        "recv+pdate+ovf?" => { a["partial"] = g_pdate(r); g_ovf_opt(r, &mut a); }
+        "recv+pdate+ovf" => { a["partial"] = g_pdate(r); g_ovf(r, &mut a); }
+        "recv+cal" => { a["cal"] = json!(*r.pick(&["iso8601", "gregory", "hebrew", "japanese", "nope", "buddhist"])); }
+        "recv+dcal" => { a["dcal"] = json!(*r.pick(&["auto", "always", "never", "critical"])); }
+        "fdt" => { let d = g_fdate(r); a["f"] = merge(&d, &g_ftime(r)); }
+        "pdt+ovf?" | "recv+pdt+ovf?" => { a["partial"] = json!({"date": g_pdate(r), "time": g_ptime(r)}); g_ovf_opt(r, &mut a); }
+        "recv+ropts" => { a["opts"] = g_st(r); }
+        "recv+tsro+dcal" => { a["opts"] = g_tsro(r); a["dcal"] = json!(*r.pick(&["auto", "always", "never", "critical"])); }
+        "recv+tsro" => { a["opts"] = g_tsro(r); }
+        "ftime" => { a["f"] = g_ftime(r); }
+        "ptime+ovf?" | "recv+ptime+ovf?" => { a["partial"] = g_ptime(r); g_ovf_opt(r, &mut a); }
+        "recv+unit+inc?+mode?" => { a["unit"] = json!(*r.pick(&UNITS)); if r.chance(1, 2) { a["inc"] = json!(*r.pick(&[1i64, 2, 5, 7, 15, 30, 60, 100, 500, 1000])); } if r.chance(1, 2) { a["mode"] = json!(*r.pick(&MODES)); } }
+        "fdur" => { a["f"] = g_seq(r, 10); special_at(r, &mut a, 10); }
+        "day+ftdur" => { a["day"] = json!(r.range(-1000, 1000)); a["time"] = g_seq(r, 6); if r.chance(1, 10) { a["special"] = json!({"val": *r.pick(&["NaN", "inf", "-inf"])}); } }
+        "pdur" => { a["partial"] = g_pdur(r, false); }
+        "pdur-finite" => { a["partial"] = g_pdur(r, true); }
+        "ftdur" => { a["f"] = g_seq(r, 6); special_at(r, &mut a, 6); }
+        "fddur" => { a["f"] = g_seq(r, 4); special_at(r, &mut a, 4); }
+        // try_new: only values expressible as the FFI's sign-and-magnitude (high, low) pair (not -2^64 < ns < 0)
+        "ns" => { a["ns"] = loop { let i = g_inst(r); let n = crate::ops_wrap::ens(&i); if n >= 0 || n <= -(1i128 << 64) { break i; } }; if r.chance(1, 10) { a["ns"] = json!({"day": *r.pick(&[100_000_000i64, -100_000_001]), "sec": r.range(0, 86_399), "ns": r.range(1, 999_999_999)}); } }
+        "ms" => { let i = g_inst(r); let mut m = ems(&i); if r.chance(1, 10) { m = *r.pick(&[8_640_000_000_000_001i128, -8_640_000_000_000_001, 9_000_000_000_000_000_000, -9_000_000_000_000_000_000]); } a["ms"] = big(m); }
+        "fym+ovf" => { a["f"] = json!({"y": r.range(-271_821, 275_760), "m": r.range(0, 14)}); if r.chance(1, 3) { a["f"]["rd"] = json!(r.range(0, 32)); } maybe_cal(r, &mut a["f"], 10); g_ovf(r, &mut a); }
+        "fmd+ovf" => { a["f"] = json!({"m": r.range(0, 14), "d": r.range(0, 33)}); if r.chance(1, 2) { a["f"]["y"] = json!(r.range(1800, 2200)); } maybe_cal(r, &mut a["f"], 10); g_ovf(r, &mut a); }
+        "recv+date" => { a["date"] = date_json(any_day(r)); }
+        "recv+date+dur+ovf" => { a["date"] = date_json(any_day(r)); let tu = r.chance(1, 4); a["dur"] = g_dur(r, true, tu); g_ovf(r, &mut a); }
+        "recv+date+other+unit" => { a["date"] = date_json(any_day(r)); a["other"] = date_json(any_day(r)); a["unit"] = json!(*r.pick(&UNITS)); }
+        "kind" => { a["kind"] = json!(*r.pick(ENUMS[12].1)); }
+        "calsrc" => { a["src"] = json!(*r.pick(&["iso8601", "ISO8601", "gregory", "hebrew", "japanese", "islamic-civil", "islamicc", "nope", "", "Gregory", "iso"])); }
+        "kindsrc" => { a["src"] = json!(*r.pick(&["iso", "gregory", "hebrew", "islamicc", "islamic-civil", "islamic", "islamic-tbla", "islamic-umalqura", "nope", "japanext", "japanese", "iso8601", "ethioaa", "ethiopic", "roc", "persian", "indian", "dangi", "coptic", "chinese", "buddhist", "Hebrew", ""])); }
+        s if s.starts_with("variant:") => { let e = ENUMS.iter().find(|x| x.0 == &s[8..]).expect("enum"); a["variant"] = json!(*r.pick(e.1)); }
+        _ => panic!("argument shape {}", sig),
+    }
+    a
+}
 
 pub fn drive(t: &mut Tracer, r: &mut Rng, n: usize) {
-    let _ = (t, r, n);
+    let mut k = 0usize;
+    while t.n < n {
+        // every row in turn (so that every row is exercised in every run), in a seeded random order per sweep
+        let mut order: Vec<usize> = (0..TABLE.len()).collect();
+        for i in (1..order.len()).rev() { let j = r.range(0, i as i64) as usize; order.swap(i, j); }
+        for &ri in &order {
+            if t.n >= n { break; }
+            let (row, twin, ty, sig) = TABLE[ri];
+            let mut args = args_for(r, ty, sig);
+            args["twin"] = json!(twin);
+            t.call(&format!("Wrap.{}", row), args);
+            // a wrapper panicked where its core twin did not: the shared provider lock is poisoned, nothing further can be compared
+            if temporal_rs::verif::provider_lock_poisoned() { return; }
+            k += 1;
+            if k % 60 == 0 { t.reset(); }
+        }
+    }
 }
